@@ -45,7 +45,7 @@ def make_model(seed):
     r = random.Random(seed)
     knobs = gen.Knobs(items=r.choice([1, 2, 3]), members=r.choice([2, 4]), ns_depth=r.choice([0, 1, 2]),
                       params=3, type_depth=2)
-    return gen.WildGen(seed, knobs, typedefs=True, param_use=0.2, this_use=0.05).module()
+    return gen.WildGen(seed, knobs, typedefs=True, param_use=0.2, this_use=0.05, overloads=0.2, reopen_ns=0.2).module()
 
 
 def corrupt(toks, r):
@@ -53,7 +53,7 @@ def corrupt(toks, r):
     t = [x for x, _ in toks]
     n = len(t)
     kind = r.choice(['delete', 'duplicate', 'swap', 'truncate', 'insert', 'bracket', 'misspell', 'comment',
-                     'glue', 'delete', 'insert', 'truncate'])
+                     'glue', 'delete', 'insert', 'truncate', 'separator', 'separator'])
     i = r.randrange(n)
     if kind == 'delete':
         del t[i]
@@ -94,6 +94,21 @@ def corrupt(toks, r):
             t.insert(i, '/*')                      # a region commented out
         else:
             t.insert(i, '*/')                      # stray closer
+    elif kind == 'separator':
+        # a stray delimiter at a structural position: trailing / leading / doubled separators of lists and blocks
+        closers = [j for j, x in enumerate(t) if x in (')', '}', '>')]
+        openers = [j for j, x in enumerate(t) if x in ('(', '{', '<')]
+        seps = [j for j, x in enumerate(t) if x in (',', ';', '::', ':', '=')]
+        x = r.random()
+        if x < 0.4 and closers:
+            t.insert(r.choice(closers), r.choice([',', ',', ';', '::']))
+        elif x < 0.6 and openers:
+            t.insert(r.choice(openers) + 1, r.choice([',', ';', '::']))
+        elif seps:
+            j = r.choice(seps)
+            t.insert(j, t[j] if r.random() < 0.6 else r.choice([',', ';', '::', ':']))
+        else:
+            t.insert(i, ',')
     elif kind == 'glue' and n > 1:
         i = r.randrange(n - 1)
         t[i:i + 2] = [t[i] + t[i + 1]]
